@@ -9,7 +9,8 @@ THEOREMS = ['Chi2.ndf_eq_count', 'Chi2.left_out_iff_both_zero', 'Chi2.left_out_n
 BUDGET = {'quick': 1200, 'thorough': 20000}
 TIME_LIMIT = {'quick': 50, 'thorough': 800}
 RULE = ('datasets of shape () to 3-d (1-60 bins), 1-3 compared datasets at 0-4 sigma from the reference, errors >= 0 with '
-        'arbitrary patterns of zeros (none / some / all bins, one or both sides), both settings of ignore_empty, NaN and '
+        'arbitrary patterns of zeros (none / some / all bins, one or both sides) and strictly positive errors whose squares '
+        'underflow (12% of the cases), integer-valued datasets given as integer arrays (15%), both settings of ignore_empty, NaN and '
         'infinities injected only when ignore_empty is off, alpha log-uniform in (1e-4, 1); every case is also evaluated '
         'with its bins permuted; non-trivial = a bin left out, or a failing dataset, or a special value; distinct = case hash')
 CORRESPONDS = ('Model/Chi2.lean (used, term, chi2 = sum over the used bins, ndf, oracles, verdict) vs TestChi2 '
